@@ -1,3 +1,4 @@
+import inspect
 import warnings
 from importlib.metadata import version
 from numbers import Number
@@ -826,8 +827,21 @@ def _label_out(kwargs, units):
         out.units = units
 
 
+def _out_as_keyword(func, args, kwargs, pos):
+    # the out buffer may also be passed positionally (argument number *pos*
+    # after the array): np.ptp(a, axis, out), np.percentile(a, q, axis, out), ...
+    # Spell it (and whatever follows it) as keywords, as the rest of the
+    # handler expects.
+    if len(args) <= pos:
+        return args, kwargs
+    names = list(inspect.signature(func).parameters)[1:]
+    kwargs = {**kwargs, **dict(zip(names[pos:], args[pos:]))}
+    return args[:pos], kwargs
+
+
 @implements(np.prod)
 def prod(a, *args, **kwargs):
+    args, kwargs = _out_as_keyword(np.prod, args, kwargs, 2)
     res = np.prod._implementation(np.asarray(a), *args, **_bare_out(kwargs))
     ret_units = a.units ** (a.size // res.size)
     _label_out(kwargs, ret_units)
@@ -836,6 +850,7 @@ def prod(a, *args, **kwargs):
 
 @implements(np.var)
 def var(a, *args, **kwargs):
+    args, kwargs = _out_as_keyword(np.var, args, kwargs, 2)
     units = a.units**2
     out = kwargs.get("out")
     if out is None:
@@ -852,6 +867,7 @@ def var(a, *args, **kwargs):
 
 @implements(np.trace)
 def trace(a, *args, **kwargs):
+    args, kwargs = _out_as_keyword(np.trace, args, kwargs, 4)
     ret = np.trace._implementation(np.asarray(a), *args, **kwargs) * a.units
     _label_out(kwargs, a.units)
     return ret
@@ -859,6 +875,7 @@ def trace(a, *args, **kwargs):
 
 @implements(np.percentile)
 def percentile(a, *args, **kwargs):
+    args, kwargs = _out_as_keyword(np.percentile, args, kwargs, 2)
     ret = np.percentile._implementation(np.asarray(a), *args, **_bare_out(kwargs)) * a.units
     _label_out(kwargs, a.units)
     return ret
@@ -866,6 +883,7 @@ def percentile(a, *args, **kwargs):
 
 @implements(np.quantile)
 def quantile(a, *args, **kwargs):
+    args, kwargs = _out_as_keyword(np.quantile, args, kwargs, 2)
     ret = np.quantile._implementation(np.asarray(a), *args, **_bare_out(kwargs)) * a.units
     _label_out(kwargs, a.units)
     return ret
@@ -873,6 +891,7 @@ def quantile(a, *args, **kwargs):
 
 @implements(np.nanpercentile)
 def nanpercentile(a, *args, **kwargs):
+    args, kwargs = _out_as_keyword(np.nanpercentile, args, kwargs, 2)
     ret = np.nanpercentile._implementation(np.asarray(a), *args, **_bare_out(kwargs)) * a.units
     _label_out(kwargs, a.units)
     return ret
@@ -880,6 +899,7 @@ def nanpercentile(a, *args, **kwargs):
 
 @implements(np.nanquantile)
 def nanquantile(a, *args, **kwargs):
+    args, kwargs = _out_as_keyword(np.nanquantile, args, kwargs, 2)
     ret = np.nanquantile._implementation(np.asarray(a), *args, **_bare_out(kwargs)) * a.units
     _label_out(kwargs, a.units)
     return ret
@@ -1022,6 +1042,7 @@ def ediff1d(ary, *args, **kwargs):
 
 @implements(np.ptp)
 def ptp(a, *args, **kwargs):
+    args, kwargs = _out_as_keyword(np.ptp, args, kwargs, 1)
     return diff_helper(np.ptp, a, *args, **kwargs)
 
 
